@@ -132,7 +132,7 @@ theorem write_sim_noalloc {σ : Type} (A : Cursor.Allocator σ) (s : σ) (f : Fi
     ∃ k f' d', run (f.write buf) d = (.ok (k, f'), d') ∧ DevStep d d' ∧
       ((absFile d.fs d.img f).write A s buf).1 = .ok k ∧ ((absFile d.fs d.img f).write A s buf).2.2 = s ∧
       CoreEq (absFile d'.fs d'.img f') ((absFile d.fs d.img f).write A s buf).2.1 ∧
-      FileRep d'.fs d'.img f' ∧ tabView d'.fs d'.img = tabView d.fs d.img ∧
+      FileRep d'.fs d'.img f' ∧ tabView d'.fs d'.img = tabView d.fs d.img ∧ d'.fs.fsInfo = d.fs.fsInfo ∧
       (∀ q, 0x42 ≤ q → d'.img.getByte q ≠ d.img.getByte q → ∃ cur, (absFile d.fs d.img f).readCluster = some cur ∧
         clusterOff d.fs cur + f.offset % d.fs.clusterSize ≤ q ∧
         q < clusterOff d.fs cur + f.offset % d.fs.clusterSize + k) := by
@@ -152,7 +152,7 @@ theorem write_sim_noalloc {σ : Type} (A : Cursor.Allocator σ) (s : σ) (f : Fi
       (4294967295 - f.offset) = 0 then _ else _) d = _ ∧ _
   by_cases hw0 : min (min buf.length (d.fs.clusterSize - f.offset % d.fs.clusterSize)) (4294967295 - f.offset) = 0
   · rw [if_pos hw0, if_pos hw0]
-    exact ⟨0, f, d, rfl, DevStep.refl d, rfl, rfl, CoreEq.refl _, hrep, rfl, fun q _ h => absurd rfl h⟩
+    exact ⟨0, f, d, rfl, DevStep.refl d, rfl, rfl, CoreEq.refl _, hrep, rfl, rfl, fun q _ h => absurd rfl h⟩
   · rw [if_neg hw0, if_neg hw0]
     generalize hww : min (min buf.length (d.fs.clusterSize - f.offset % d.fs.clusterSize)) (4294967295 - f.offset) = w
       at hw0
@@ -182,7 +182,7 @@ theorem write_sim_noalloc {σ : Type} (A : Cursor.Allocator σ) (s : σ) (f : Fi
     rw [hawc]
     simp only
     -- set_dirty_flag
-    obtain ⟨d1, hr1, hs1, _, _, hb1⟩ := run_setDirtyFlag_true d hfa (by
+    obtain ⟨d1, hr1, hs1, _, hinfo1, hb1⟩ := run_setDirtyFlag_true d hfa (by
       have := hg.status_lt; have := hg.fat_dev; omega)
     rw [run_bind_ok hr1]
     have hfa1 : d1.failAt = none := by rw [hs1.failAt]; exact hfa
@@ -321,7 +321,7 @@ theorem write_sim_noalloc {σ : Type} (A : Cursor.Allocator σ) (s : σ) (f : Fi
       · intro c hc; rw [hch', htv']; exact hrep.chain c (hf1 ▸ hc)
       · intro c hc; rw [hfs', hs1.geom.totalClusters]; exact hrep.inTab c (hch' ▸ hc)
       · intro c hc; rw [htv']; exact hrep.last_eoc c (hch' ▸ hc)
-    refine ⟨w, f', d', rfl, hstep, rfl, trivial, hcore, hrep', htv', ?_⟩
+    refine ⟨w, f', d', rfl, hstep, rfl, trivial, hcore, hrep', htv', by rw [hfs', hinfo1], ?_⟩
     intro q hq hne
     refine ⟨cur, hrc, ?_⟩
     by_cases hin : clusterOff d.fs cur + f.offset % d.fs.clusterSize ≤ q ∧
